@@ -526,6 +526,8 @@ pub struct GenCfg {
     pub allow_bitvec: bool,
     pub allow_alias: bool,
     pub allow_phantom: bool,
+    /// `char` has no Encode/Decode impl in parity-scale-codec 3.6 (artifact tier switches it off)
+    pub allow_char: bool,
     /// PhantomData below Vec/Option/... (registers a PhantomData entry; known generator panic)
     pub nested_phantom: bool,
     pub allow_duration: bool,
@@ -550,6 +552,7 @@ impl Default for GenCfg {
             allow_bitvec: true,
             allow_alias: false,
             allow_phantom: true,
+            allow_char: true,
             nested_phantom: false,
             allow_duration: true,
             allow_compact: true,
@@ -595,7 +598,12 @@ impl<'r, R: Rng> ProgGen<'r, R> {
     }
 
     fn prim(&mut self) -> Prim {
-        *Prim::ALL.choose(self.rng).unwrap()
+        loop {
+            let p = *Prim::ALL.choose(self.rng).unwrap();
+            if p != Prim::Char || self.cfg.allow_char {
+                return p;
+            }
+        }
     }
 
     /// A closed type without user defs: used for marker assoc types, map keys etc.
